@@ -1,5 +1,466 @@
-use crate::mc::Eng;
+//! C10 — integral, derivative and to-state streams equal trapezoid sums and differences.
+use crate::env::*;
+use crate::mc::*;
+use crate::refmodels::*;
 use crate::Ctx;
-pub fn run(_ctx: &Ctx) -> Vec<Eng> {
-    vec![]
+use rrtk::streams::converters::*;
+use rrtk::streams::math::*;
+use rrtk::*;
+use std::cell::RefCell;
+use std::rc::Rc;
+
+#[derive(Clone, Copy, Debug, PartialEq)]
+pub enum Ev {
+    P(i64, f32),
+    N(i64),
+    Er(i64, u8),
+}
+fn ev_dt(e: &Ev) -> i64 {
+    match e {
+        Ev::P(d, _) | Ev::N(d) | Ev::Er(d, _) => *d,
+    }
+}
+fn show(h: &[Ev]) -> String {
+    h.iter()
+        .map(|e| match e {
+            Ev::P(d, v) => format!("P(+{}ns,{:?})", d, v),
+            Ev::N(_) => "N".to_string(),
+            Ev::Er(_, c) => format!("E{}", c),
+        })
+        .collect::<Vec<_>>()
+        .join(",")
+}
+
+pub const KINDS: [&str; 5] = ["integral", "derivative", "acceleration_to_state", "velocity_to_state", "position_to_state"];
+
+fn natural_unit(kind: usize) -> Unit {
+    match kind {
+        2 => MILLIMETER_PER_SECOND_SQUARED,
+        3 => MILLIMETER_PER_SECOND,
+        _ => MILLIMETER,
+    }
+}
+
+trait Subj {
+    fn feed(&mut self, o: Output<Quantity, E>);
+    fn update(&mut self) -> u32;
+    fn get(&self) -> Obs;
+}
+struct Sub<S> {
+    inp: Rc<RefCell<Scr<Quantity>>>,
+    s: S,
+    g: fn(&S) -> Obs,
+    u: fn(&mut S) -> NothingOrError<E>,
+}
+impl<S> Subj for Sub<S> {
+    fn feed(&mut self, o: Output<Quantity, E>) {
+        self.inp.borrow_mut().next = o;
+    }
+    fn update(&mut self) -> u32 {
+        obs_unit(&(self.u)(&mut self.s))
+    }
+    fn get(&self) -> Obs {
+        (self.g)(&self.s)
+    }
+}
+fn make(kind: usize) -> Box<dyn Subj> {
+    macro_rules! sub {
+        ($ctor:expr) => {{
+            let inp = rc(Scr::<Quantity>::new(Ok(None)));
+            let s = $ctor(rf(&inp));
+            Box::new(Sub { inp, s, g: |s| obs(&s.get()), u: |s| s.update() })
+        }};
+    }
+    match kind {
+        0 => sub!(IntegralStream::new),
+        1 => sub!(DerivativeStream::new),
+        2 => sub!(AccelerationToState::new),
+        3 => sub!(VelocityToState::new),
+        4 => sub!(PositionToState::new),
+        _ => unreachable!(),
+    }
+}
+
+fn run_real(kind: usize, h: &[Ev], t0: i64, unit: Unit) -> Vec<(u32, Obs)> {
+    let mut s = make(kind);
+    let mut t = t0;
+    let mut out = Vec::with_capacity(h.len());
+    for e in h {
+        t += ev_dt(e);
+        s.feed(match e {
+            Ev::P(_, v) => Ok(Some(Datum::new(Time(t), Quantity::new(*v, unit)))),
+            Ev::N(_) => Ok(None),
+            Ev::Er(_, c) => Err(Error::Other(*c)),
+        });
+        let u = s.update();
+        out.push((u, s.get()));
+    }
+    out
+}
+
+/// Reference models. Each returns, per event, the expected present value (up to three
+/// components) or None for "absent" (for integral/derivative an erroring input makes get()
+/// return that error, which is C05's clause; here only Some/None matters at P and N events).
+struct Ref {
+    kind: usize,
+    samples: Vec<(i64, Tr)>, // present samples since the last reset
+    acc1: Option<Tr>,        // first running sum
+    acc2: Option<Tr>,        // second running sum
+    prev_d1: Option<Tr>,     // previous first difference (position_to_state)
+}
+impl Ref {
+    fn new(kind: usize) -> Ref {
+        Ref { kind, samples: vec![], acc1: None, acc2: None, prev_d1: None }
+    }
+    fn reset(&mut self) {
+        self.samples.clear();
+        self.acc1 = None;
+        self.acc2 = None;
+        self.prev_d1 = None;
+    }
+    /// feed one present sample; returns expected components if the output must be present
+    fn sample(&mut self, t: i64, v: f32) -> Option<[Option<Tr>; 3]> {
+        let cur = Tr::exact(v);
+        let prev = self.samples.last().copied();
+        self.samples.push((t, cur));
+        let n = self.samples.len();
+        let two = Tr::exact(2.0);
+        match self.kind {
+            0 => {
+                let (tp, p) = prev?;
+                let add = secs(t - tp).mul(p.add(cur)).div(two);
+                let tot = match self.acc1 {
+                    Some(a) => add.add(a),
+                    None => add,
+                };
+                self.acc1 = Some(tot);
+                Some([Some(tot), None, None])
+            }
+            1 => {
+                let (tp, p) = prev?;
+                Some([Some(cur.sub(p).div(secs(t - tp))), None, None])
+            }
+            2 => {
+                // acceleration -> velocity (sum from sample 2) -> position (sum from sample 3)
+                let (tp, p) = prev?;
+                let dt = secs(t - tp);
+                let vadd = p.add(cur).div(two).mul(dt);
+                match self.acc1 {
+                    None => {
+                        self.acc1 = Some(vadd);
+                        None
+                    }
+                    Some(oldv) => {
+                        let newv = oldv.add(vadd);
+                        let padd = oldv.add(newv).div(two).mul(dt);
+                        let pos = match self.acc2 {
+                            Some(op) => op.add(padd),
+                            None => padd,
+                        };
+                        self.acc1 = Some(newv);
+                        self.acc2 = Some(pos);
+                        let _ = n;
+                        Some([Some(pos), Some(newv), Some(cur)])
+                    }
+                }
+            }
+            3 => {
+                let (tp, p) = prev?;
+                let dt = secs(t - tp);
+                let acc = cur.sub(p).div(dt);
+                let padd = p.add(cur).div(two).mul(dt);
+                let pos = match self.acc1 {
+                    Some(op) => op.add(padd),
+                    None => padd,
+                };
+                self.acc1 = Some(pos);
+                Some([Some(pos), Some(cur), Some(acc)])
+            }
+            _ => {
+                let (tp, p) = prev?;
+                let dt = secs(t - tp);
+                let vel = cur.sub(p).div(dt);
+                let r = match self.prev_d1 {
+                    None => None,
+                    Some(ov) => Some([Some(cur), Some(vel), Some(vel.sub(ov).div(dt))]),
+                };
+                self.prev_d1 = Some(vel);
+                r
+            }
+        }
+    }
+}
+
+fn out_unit_code(kind: usize, unit: Unit) -> u32 {
+    if !cfg!(feature = "dimcheck") {
+        return 0;
+    }
+    let (m, s) = unit_exps(unit);
+    match kind {
+        0 => (m * 1000 + s + 1) as u32,
+        1 => (m * 1000 + s - 1) as u32,
+        _ => 0,
+    }
+}
+
+pub fn check_history(kind: usize, h: &[Ev], unit: Unit, e: &mut Eng, meta: bool) -> u64 {
+    let name = KINDS[kind];
+    let n = h.len();
+    let t0 = -3 * S;
+    let mut applied = n as u64;
+    let main = match guard(|| run_real(kind, h, t0, unit)) {
+        Ok(m) => m,
+        Err(m) => {
+            e.violation(&format!("calc:{}:panic", name), n, || format!("history [{}] panicked: {}", show(h), m));
+            return applied;
+        }
+    };
+    e.outcome(h64(&(kind, &main)));
+    let mut r = Ref::new(kind);
+    let mut t = t0;
+    let ignores_n = kind >= 2;
+    let mut nontrivial = false;
+    let (mut n_exact, mut n_tol) = (0i128, 0i128);
+    for (k, ev) in h.iter().enumerate() {
+        t += ev_dt(ev);
+        e.checks += 1;
+        let (u, got) = main[k];
+        match ev {
+            Ev::P(_, v) => {
+                let exp = r.sample(t, *v);
+                if r.samples.len() >= 3 {
+                    nontrivial = true;
+                }
+                let ok = match exp {
+                    None => u == 0 && got.is_none(),
+                    Some(c) => {
+                        let mut ok = u == 0 && got.is_some() && got.time == t;
+                        for i in 0..3 {
+                            if let Some(x) = c[i] {
+                                if x.robust {
+                                    n_exact += 1;
+                                } else {
+                                    n_tol += 1;
+                                }
+                                ok = ok && x.agrees(got.f(i), 8.0);
+                            }
+                        }
+                        if kind < 2 {
+                            ok = ok && got.bits[3] == out_unit_code(kind, unit);
+                        }
+                        ok
+                    }
+                };
+                if !ok {
+                    let key = if got.is_some() && exp.is_some() && got.time != t {
+                        "time"
+                    } else if got.is_some() && exp.is_some() && kind < 2 && got.bits[3] != out_unit_code(kind, unit) {
+                        "unit"
+                    } else {
+                        "value"
+                    };
+                    e.violation(&format!("calc:{}:{}", name, key), k + 1, || {
+                        format!(
+                            "{} history [{}] (input unit {:?}): after event {} update()={} get()={} but the reference gives {} at time {}",
+                            name,
+                            show(&h[..=k]),
+                            unit,
+                            k,
+                            u,
+                            got.show(),
+                            match exp {
+                                None => "absent".to_string(),
+                                Some(c) => format!("{:?}", c.iter().flatten().map(|x| x.show()).collect::<Vec<_>>()),
+                            },
+                            t
+                        )
+                    });
+                    break;
+                }
+            }
+            Ev::N(_) => {
+                if !ignores_n {
+                    r.reset();
+                    if !(u == 0 && got.is_none()) {
+                        e.violation(&format!("calc:{}:absent-input", name), k + 1, || format!("history [{}]: after an absent input get() = {}", show(&h[..=k]), got.show()));
+                        break;
+                    }
+                }
+            }
+            Ev::Er(_, c) => {
+                r.reset();
+                if u != 2 + *c as u32 {
+                    e.violation(&format!("calc:{}:update-result", name), k + 1, || format!("history [{}]: update() did not return the input's error", show(&h[..=k])));
+                    break;
+                }
+            }
+        }
+    }
+    if nontrivial {
+        e.nontrivial += 1;
+    }
+    e.count("bit_exact_reference_checks", n_exact);
+    e.count("tolerance_reference_checks", n_tol);
+    if meta {
+        for shift in [-1_000_000_000_000_000i64, 11, 100_000_000_000_000_000] {
+            if let Ok(sh) = guard(|| run_real(kind, h, t0 + shift, unit)) {
+                applied += n as u64;
+                for k in 0..n {
+                    e.checks += 1;
+                    let (a, b) = (main[k], sh[k]);
+                    let same = a.0 == b.0 && a.1.tag == b.1.tag && a.1.bits == b.1.bits && (a.1.tag != 1 || a.1.time + shift == b.1.time);
+                    if !same {
+                        e.violation(&format!("calc:{}:shift-variance", name), k + 1, || {
+                            format!("{} history [{}]: with all timestamps shifted by {} event {} gives {} instead of {}", name, show(&h[..=k]), shift, k, b.1.show(), a.1.show())
+                        });
+                        break;
+                    }
+                }
+            }
+        }
+    }
+    applied
+}
+
+fn exact_syms() -> Vec<Ev> {
+    let mut v = Vec::new();
+    for dt in [S / 4, S / 2, S, 2 * S] {
+        for x in [0.0f32, 1.0, -2.0, 3.0] {
+            v.push(Ev::P(dt, x));
+        }
+    }
+    v.push(Ev::N(S));
+    v.push(Ev::Er(S, 1));
+    v
+}
+fn broad_syms() -> Vec<Ev> {
+    let mut v = Vec::new();
+    for dt in [1_000i64, 1_000_000, 300_000_000, 3600 * S] {
+        for x in [0.1f32, -7.3, 1000.0] {
+            v.push(Ev::P(dt, x));
+        }
+    }
+    v.push(Ev::N(S));
+    v.push(Ev::Er(S, 1));
+    v
+}
+
+/// Unit clause: 49 input units x short histories. integral/derivative: output unit =
+/// input*s resp. input/s; to-state converters panic iff a present sample is ill-dimensioned
+/// (checked builds).
+fn units(e: &mut Eng) {
+    let hs: Vec<Vec<Ev>> = vec![
+        vec![Ev::P(S, 1.0), Ev::P(S, 3.0), Ev::P(2 * S, -2.0)],
+        vec![Ev::N(S), Ev::P(S, 1.0), Ev::P(S / 2, 3.0)],
+        vec![Ev::Er(S, 1), Ev::N(S), Ev::Er(S, 1)],
+        vec![Ev::P(S, 1.0), Ev::Er(S, 1), Ev::P(S, 3.0)],
+    ];
+    for m in -3..=3i8 {
+        for s in -3..=3i8 {
+            let unit = Unit::new(m, s);
+            for kind in 0..5 {
+                for h in &hs {
+                    e.executions += 1;
+                    e.states += 1;
+                    e.transitions += h.len() as u64;
+                    e.checks += 1;
+                    let has_p = h.iter().any(|x| matches!(x, Ev::P(..)));
+                    let right = unit_exps(unit) == unit_exps(natural_unit(kind));
+                    let must_panic = cfg!(feature = "dimcheck") && kind >= 2 && has_p && !right;
+                    if !right {
+                        e.nontrivial += 1;
+                    }
+                    let r = guard(|| run_real(kind, h, 0, unit));
+                    e.outcome(h64(&(kind, m, s, r.as_ref().ok())));
+                    match (r, must_panic) {
+                        (Err(_), true) => {}
+                        (Err(msg), false) => e.violation(&format!("calc:{}:unit-panic", KINDS[kind]), h.len(), || {
+                            format!("{} with input unit mm^{} s^{} history [{}] panicked: {}", KINDS[kind], m, s, show(h), msg)
+                        }),
+                        (Ok(_), true) => e.violation(&format!("calc:{}:unit-not-rejected", KINDS[kind]), h.len(), || {
+                            format!("{} accepted input unit mm^{} s^{} (history [{}]) although dimension checking is on", KINDS[kind], m, s, show(h))
+                        }),
+                        (Ok(_), false) => {
+                            if kind < 2 || right {
+                                check_history(kind, h, unit, e, false);
+                            }
+                        }
+                    }
+                }
+            }
+        }
+    }
+    e.sample(|| "derivative with input unit mm^2 s^-3, history [P(+1s,1),P(+1s,3),P(+2s,-2)] -> unit mm^2 s^-4".to_string());
+}
+
+pub fn run(ctx: &Ctx) -> Vec<Eng> {
+    let budget = Budget::secs(if ctx.thorough { 2000 } else { 120 });
+    let depth = if ctx.thorough { 6 } else { 5 };
+    let syms = exact_syms();
+    let mut e1 = Eng::new(
+        "c10-seqs-exact",
+        "all histories of exactly `depth` events over {P(dt,v): dt in {0.25,0.5,1,2}s, v in {0,1,-2,3}} + {N,E1} for integral, derivative, acceleration-, velocity-, position-to-state; after every present sample get() must equal the reference (trapezoid sums / backward differences applied once or twice, absent until 2 resp. 3 samples, newest sample's time, unit input*s or input/s), bit-exact where certified; timestamps shifted by -1e15, +11, +1e17 ns must give bit-identical values; non-trivial = at least three samples since the last reset",
+        &format!("depth {} => 18^{} histories x 5 streams", depth, depth),
+    );
+    for kind in 0..5 {
+        par_seqs(&mut e1, syms.len(), depth, budget, |seq, e| {
+            let h: Vec<Ev> = seq.iter().map(|&s| syms[s]).collect();
+            let a = check_history(kind, &h, natural_unit(kind), e, true);
+            e.sample(|| format!("{} [{}]", KINDS[kind], show(&h)));
+            a
+        });
+    }
+    let bdepth = if ctx.thorough { 5 } else { 4 };
+    let bs = broad_syms();
+    let mut e2 = Eng::new(
+        "c10-seqs-broad",
+        "same over the broad alphabet {P(dt,v): dt in {1us,1ms,0.3s,1h}, v in {0.1,-7.3,1000}} + {N,E1}: f64 reference with running forward-error bound (8x)",
+        &format!("depth {} => 14^{} histories x 5 streams", bdepth, bdepth),
+    );
+    for kind in 0..5 {
+        par_seqs(&mut e2, bs.len(), bdepth, budget, |seq, e| {
+            let h: Vec<Ev> = seq.iter().map(|&s| bs[s]).collect();
+            let a = check_history(kind, &h, natural_unit(kind), e, true);
+            e.sample(|| format!("{} [{}]", KINDS[kind], show(&h)));
+            a
+        });
+    }
+    let (hz, k) = if ctx.thorough { (64, 3) } else { (24, 2) };
+    let mut e3 = Eng::new(
+        "c10-deviations",
+        "all histories of exactly H events differing from the default stream P(1 s, cycle {0,1,-2,3}) in at most k positions, deviations {N, E1, P(0.25 s), P(2 s), P(1 us), P(1 h)}; 5 streams",
+        &format!("H={} k={}", hz, k),
+    );
+    let cases = deviation_cases(hz, 6, k);
+    let cyc = [0.0f32, 1.0, -2.0, 3.0];
+    for kind in 0..5 {
+        par_cases(&mut e3, &cases, budget, |c, e| {
+            let mut h: Vec<Ev> = (0..hz).map(|i| Ev::P(S, cyc[i % 4])).collect();
+            for &(p, a) in c {
+                let v = cyc[(p as usize + 1) % 4];
+                h[p as usize] = match a {
+                    0 => Ev::N(S),
+                    1 => Ev::Er(S, 1),
+                    2 => Ev::P(S / 4, v),
+                    3 => Ev::P(2 * S, v),
+                    4 => Ev::P(1000, v),
+                    _ => Ev::P(3600 * S, v),
+                };
+            }
+            e.executions += 1;
+            e.states += 1;
+            e.max_depth = e.max_depth.max(hz as u64);
+            e.transitions += check_history(kind, &h, natural_unit(kind), e, c.len() < 3);
+            if c.len() == k {
+                e.sample(|| format!("{} [{}]", KINDS[kind], show(&h)));
+            }
+        });
+    }
+    let mut e4 = Eng::new(
+        "c10-units",
+        "49 input units (7x7 grid) x 4 short histories x 5 streams: output unit of integral/derivative = input unit times/over seconds; to-state converters panic exactly when a present sample is wrongly dimensioned (dimension-checked build); non-trivial = unit differs from the stream's natural one",
+        "49 x 4 x 5",
+    );
+    units(&mut e4);
+    vec![e1, e2, e3, e4]
 }
